@@ -455,7 +455,7 @@ def skolemize(goal):
 _NTH_IDX = {}
 
 
-def ground_terms(fs, sort, limit=40):
+def ground_terms(fs, sort, limit=90):
     """ground subterms of the given sort that occur as index of nth / key of a select / argument of an uninterpreted function
     (these are what the triggers of the hypotheses look like); later formulas first"""
     out, seen = {}, set()
@@ -481,8 +481,10 @@ def ground_terms(fs, sort, limit=40):
                     # element k of the slice x[a:a+l] is element a+k of x: offer a+k as an instantiation term
                     cands = cands + [ch[0].arg(1) + ch[1]]
                 for c in cands:
-                    if c.sort().eq(sort) and not z3.is_int_value(c) and not has_var(c):
+                    if c.sort().eq(sort) and not has_var(c) and (not z3.is_int_value(c) or 0 <= c.as_long() <= 8):
                         _NTH_IDX.setdefault(c.get_id(), c)
+                        if z3.is_int_value(c):
+                            out.setdefault(c.get_id(), c)
             elif kind == z3.Z3_OP_SELECT:
                 cands = ch[1:]
             elif kind == z3.Z3_OP_UNINTERPRETED:
@@ -513,7 +515,7 @@ def has_var(t):
     return False
 
 
-def instances(pc, goal_sk, sk, qf, limit=400):
+def instances(pc, goal_sk, sk, qf, limit=900):
     """instances of the universally quantified hypotheses (single bound variable, also under Implies/And) at the Skolem
     constants of the goal and at the ground index terms of the goal and the quantifier-free hypotheses"""
     out = []
